@@ -325,6 +325,12 @@ def equalDicts (a b : List (String × Val)) : Option Bool :=
   if rs.any (· == some false) then some false else
   if rs.any (· == none) then none else some true
 
+/-- a Python `dict` built from the pairs: one entry per key (`Pipeline.defaults` is a dictionary; with consistent defaults all
+    entries of one key are equal, so which one is kept does not matter) -/
+def asDict {β} : List (String × β) → List (String × β)
+  | [] => []
+  | kv :: rest => kv :: (asDict rest).filter (·.1 ≠ kv.1)
+
 def sortedBy (fs : List MFunc) (order : List String) : List MFunc := order.filterMap fun n => fs.find? (·.name = n)
 
 /-- `pipeline.mapspecs_as_strings`, as specs -/
@@ -343,7 +349,7 @@ def comparePrev (fs : List MFunc) (r : Req) (p : Prev) : V Unit := do
     | none => pure ()                       -- "Could not compare … hoping for the best"
     | some false => throw ⟨.value, "previous-inputs"⟩
     | some true =>
-      match equalDicts (pdefaults fs) (pdefaults p.funcs) with
+      match equalDicts (asDict (pdefaults fs)) (asDict (pdefaults p.funcs)) with
       | some false => throw ⟨.value, "previous-defaults"⟩
       | _ => pure ()
 
@@ -415,7 +421,7 @@ inductive CallKind
 
 /-- the fixed classification table -/
 def classify (name : String) : CallKind :=
-  if ["raise", "pipeline.subpipeline", "validate_slurm_executor", "_validate_complete_inputs", "validate_consistent_axes", "_validate_fixed_indices",
+  if ["raise", "pipeline.subpipeline", "validate_slurm_executor", "_validate_executor_names", "_validate_complete_inputs", "validate_consistent_axes", "_validate_fixed_indices",
       "_validate_storage_names", "_maybe_run_folder", "_compare_to_previous_run_info", "_check_inputs", "map_shapes"].contains name
   then .validation
   else if ["run_info._dump_all", "run_info.init_store", "init_tracker"].contains name then .effect
@@ -426,7 +432,7 @@ def classify (name : String) : CallKind :=
 
 /-- validations every request must pass before the first write -/
 def requiredValidations : List String :=
-  ["raise", "pipeline.subpipeline", "_validate_complete_inputs", "validate_consistent_axes", "_validate_fixed_indices", "_validate_storage_names",
+  ["raise", "pipeline.subpipeline", "_validate_executor_names", "_validate_complete_inputs", "validate_consistent_axes", "_validate_fixed_indices", "_validate_storage_names",
    "_compare_to_previous_run_info", "_check_inputs", "map_shapes"]
 
 def beforeFirstEffect (calls : List String) : List String := calls.takeWhile fun c => classify c != .effect
@@ -442,7 +448,7 @@ def validationsPrecedeEffects (calls : List String) : Bool :=
 
 /-- the source names of the steps of `startSteps`, in the order the model performs them -/
 def modelSourceOrder : List String :=
-  ["raise", "pipeline.subpipeline", "_validate_complete_inputs", "validate_consistent_axes", "_validate_fixed_indices",
+  ["raise", "pipeline.subpipeline", "_validate_executor_names", "_validate_complete_inputs", "validate_consistent_axes", "_validate_fixed_indices",
    "_validate_storage_names", "_cleanup_run_folder", "_compare_to_previous_run_info", "_check_inputs", "map_shapes",
    "run_info._dump_all", "run_info.init_store"]
 
@@ -480,7 +486,8 @@ def prepareGuardsRun (calls : List String) : Bool :=
 
 /-- classification of the calls of `Pipeline.__init__` / `add` / `_validate` / `_validate_mapspec` and `PipeFunc.__init__` / `_validate` -/
 def classifyCtor (name : String) : SrcKind :=
-  if ["raise", "self.add", "self._validate", "validate_unique_output_names", "validate_scopes", "validate_consistent_defaults",
+  if ["raise", "self.add", "self._validate", "validate_unique_output_names", "validate_unique_output_names_of", "validate_scopes",
+      "validate_consistent_defaults",
       "self._validate_mapspec", "validate_consistent_type_annotations", "validate_consistent_axes", "self._autogen_mapspec_axes",
       "_maybe_mapspec", "self._validate_names"].contains name then .validation
   else if ["self.functions.append", "f._pipelines.add", "self._clear_internal_cache", "self.update_scope"].contains name then .mutation
@@ -497,7 +504,8 @@ def ctorValidates (required : List String) (calls : List String) : Bool :=
 def pipelineInitRequired : List String := ["self.add"]
 /-- the clash of output names is tested before the function is appended, the whole pipeline validated after -/
 def pipelineAddRequired : List String := ["validate_unique_output_names", "self.functions.append", "self._validate"]
-def pipelineValidateRequired : List String := ["validate_scopes", "validate_consistent_defaults", "self._validate_mapspec"]
+def pipelineValidateRequired : List String :=
+  ["validate_scopes", "validate_unique_output_names_of", "validate_consistent_defaults", "self._validate_mapspec"]
 def pipelineValidateMapspecRequired : List String := ["raise", "validate_consistent_axes", "self._autogen_mapspec_axes"]
 def pipeFuncInitRequired : List String := ["_maybe_mapspec", "self._validate"]
 def pipeFuncValidateRequired : List String := ["self._validate_names", "self._validate_mapspec"]
